@@ -140,3 +140,79 @@ SCENARIOS = [
              kind="evaluation", trusted=["autocast.static_cast_inputs (C12.cast_inputs) casts by the signature of the operator it is given"]),
     Scenario("C01.operators.unary", s_unary, [(CONV, "Converter._translate_unary_op_expr"), (TENS, "Tensor.__neg__")], kind="evaluation"),
 ]
+
+
+def s_eval_function(ctx):
+    """BaseEvaluator.eval_function (eager calling convention): every argument bound to an INPUT parameter is wrapped for
+    eager mode (arrays and Python numbers become Tensors, None stays None, lists element-wise), every argument bound to
+    an ATTRIBUTE parameter is passed unchanged; the Python function is called once with them, positionally / by keyword
+    as tagged; results are unwrapped to numpy exactly when some argument was a numpy array."""
+    import numpy as np
+    import onnx_ir as ir
+    from onnxscript._internal import evaluator, param_manipulation
+    from onnxscript import tensor
+    I = Interp(ctx)
+    ev = SObj(evaluator.BaseEvaluator, "evaluator")
+    ev.fields["_ignore_unknown_function_kwargs"] = False
+    P_in = SObj(ir.schemas.Parameter, "input_param")
+    P_attr = SObj(ir.schemas.AttributeParameter, "attr_param")
+    arr = np.zeros((2,), dtype=np.float32)
+    kinds = {"array": arr, "tensor": tensor.Tensor(np.ones((1,), dtype=np.float32)), "float": 2.5, "int": 3, "bool": True, "none": None,
+             "list of arrays": [arr, arr]}
+    k0 = list(kinds)[ctx.choose(len(kinds), "first positional input is")]
+    k1 = list(kinds)[ctx.choose(len(kinds), "keyword input is")]
+    attr_val = [7, "mode", [1, 2]][ctx.choose(3, "attribute value")]
+    tagged_args = [(kinds[k0], P_in), (attr_val, P_attr)]
+    tagged_kwargs = {"kw_in": (kinds[k1], P_in), "kw_attr": (attr_val, P_attr)}
+    I.models[param_manipulation.tag_arguments_with_signature] = lambda interp, sig, a, k, **kw: (list(tagged_args), dict(tagged_kwargs))
+    wrapped = []
+    I.models[tensor.Tensor] = lambda interp, a, *r: (wrapped.append(a) or ("Tensor", id(a) if isinstance(a, np.ndarray) and a.ndim else a.tolist(), str(a.dtype)))
+    calls = []
+    fn = SObj(object, "onnx_function")
+
+    def pyfunc(*a, **k):
+        raise AssertionError
+    result = ("Tensor", "result")
+    I.models[pyfunc] = lambda interp, *a, **k: (calls.append((a, k)) or result)
+    fn.fields.update(op_signature="SIG", name="f", function=pyfunc)
+    unwrapped = []
+    I.models[evaluator._adapt_to_user_mode] = lambda interp, r: (unwrapped.append(r) or "numpy-result")
+    r = I.run_closure(I.closure_of(evaluator.BaseEvaluator.eval_function), [ev, fn, ("a0", "a1"), {"k": 1}], {})
+
+    def want(v):
+        if isinstance(v, np.ndarray):
+            return ("Tensor", id(v), "float32")
+        if isinstance(v, tuple) and v and v[0] == "Tensor":
+            return v
+        if isinstance(v, bool):
+            return ("Tensor", v, "bool")
+        if isinstance(v, float):
+            return ("Tensor", v, "float64")
+        if isinstance(v, int):
+            return ("Tensor", v, "int64")
+        if v is None:
+            return None
+        if isinstance(v, list):
+            return [want(x) for x in v]
+        return v
+    CLE = "C01: 'A script function gives the same outputs ... whether it is called eagerly' — the eager calling convention"
+    ok = len(calls) == 1
+    ctx.check("C01.eager.eval_function.python_function_called_once", ok, CLE)
+    if not ok:
+        return
+    a, k = calls[0]
+    k0v = kinds[k0] if not isinstance(kinds[k0], tensor.Tensor) else kinds[k0]
+    exp0 = kinds[k0] if k0 == "tensor" else want(kinds[k0])
+    exp1 = kinds[k1] if k1 == "tensor" else want(kinds[k1])
+    ctx.check("C01.eager.eval_function.input_arguments_are_wrapped_for_eager_mode_attributes_passed_unchanged",
+              len(a) == 2 and (a[0] is exp0 or a[0] == exp0) and a[1] is attr_val and set(k) == {"kw_in", "kw_attr"} and (k["kw_in"] is exp1 or k["kw_in"] == exp1)
+              and k["kw_attr"] is attr_val, CLE)
+    has_array = k0 in ("array", "list of arrays") or k1 in ("array", "list of arrays")
+    ctx.check("C01.eager.eval_function.results_are_numpy_iff_some_input_was_numpy", (r == "numpy-result" and unwrapped == [result]) if has_array else (r is result and not unwrapped), CLE)
+
+
+SCENARIOS.append(Scenario("C01.eager.eval_function", s_eval_function,
+                          [("onnxscript/_internal/evaluator.py", "BaseEvaluator.eval_function"), ("onnxscript/_internal/evaluator.py", "_adapt_to_eager_mode"),
+                           ("onnxscript/_internal/evaluator.py", "_adapt_to_eager_mode.adapt")],
+                          kind="bounded", bound="one positional and one keyword input over 7 value kinds, one positional and one keyword attribute",
+                          trusted=["param_manipulation.tag_arguments_with_signature pairs each argument with its parameter (not under contract)"]))
